@@ -24,6 +24,12 @@ ASCII_TABLE = {
     "is_ascii_control": lambda b: b <= 31 or b == 127,
     "is_ascii": lambda b: b <= 127,
     "is_ascii_octdigit": lambda b: 48 <= b <= 55,
+    # char methods, restricted to the ASCII domain (where they coincide with the is_ascii_* tables)
+    "is_lowercase": lambda b: 97 <= b <= 122,
+    "is_uppercase": lambda b: 65 <= b <= 90,
+    "is_alphabetic": lambda b: 65 <= b <= 90 or 97 <= b <= 122,
+    "is_numeric": lambda b: 48 <= b <= 57,
+    "is_alphanumeric": lambda b: 48 <= b <= 57 or 65 <= b <= 90 or 97 <= b <= 122,
 }
 
 
@@ -192,12 +198,12 @@ class Ev:
         raise NotComputable("expr " + k)
 
 
-def denote_closure(closure, crate=None, captured=None):
-    """Set of bytes accepted by a `|b| -> bool` closure node; None if not computable."""
+def denote_closure(closure, crate=None, captured=None, domain=256):
+    """Set of bytes (or, with domain=128, ASCII chars) accepted by a `|b| -> bool` closure node; None if not computable."""
     ev = Ev(crate, captured)
     out = set()
     try:
-        for b in range(256):
+        for b in range(domain):
             env = {}
             if len(closure["params"]) != 1:
                 raise NotComputable("arity")
